@@ -4,6 +4,7 @@ package core
 
 import (
 	"crypto/ecdsa"
+	"encoding/json"
 	"fmt"
 	"math/big"
 	"sort"
@@ -840,12 +841,16 @@ func TestVerif_C32(t *testing.T) {
 		for i, u := range units {
 			idx[u.name] = i
 		}
-		r.Rule("one block per case through GenerateChain (and BlockChain.InsertChain for the single-unit programs); [programs] every sequence of <=N units over a 23-unit alphabet of value-moving operations " +
+		r.Rule("one chain per case through GenerateChain: the block under test followed by an empty block (and BlockChain.InsertChain for the single-unit programs, creations, uncle chains); [programs] every sequence of <=N units over a 23-unit alphabet of value-moving operations " +
 			"(CALL with value to EOA / absent / self / precompile / reverting callee / callee that runs out of gas / with more value than the balance / coinbase / sender, CREATE with endowment whose init code returns / reverts / self-destructs to itself / to an EOA, " +
 			"CALL to contracts self-destructing to themselves / an EOA / an absent account, DELEGATECALL into a self-destructing contract, SELFDESTRUCT to EOA / to self, an SSTORE that earns a refund, REVERT, INVALID, out of gas) x 7 rule sets (london proof-of-work with block reward, paris, shanghai, cancun, prague, osaka, amsterdam) x 2 fee settings; " +
 			"[fees] 10 programs x rule sets x block base fee {0,1,7,875000000} x every valid (tip, fee cap) in {0,1,7,1e9}^2, legacy prices {base, base+1, 1e9}, blob transactions (Cancun+, blob base fee > 1) x value {0,7}; [create] creation transactions with 4 init codes; " +
 			"[withdrawals] {1}, {1,3}, {0,2,5} gwei to an existing and an absent account (Shanghai+); [two] a second plain transfer from another sender in the same block; " +
-			"oracle: reference model of balances (fork rules for self-destruction as booleans, gas used taken from the receipts) == every account balance read from the state trie, total ether equation, per-transaction sender and coinbase deltas, receipt status")
+			"[zero-credit] every <=1-unit program with a sender owning exactly gas limit x price + value (refund and program credits land on a zero balance), price == base fee (coinbase stays at zero) and above; " +
+			"[rewards] proof-of-work chains of 5 blocks on 4 rule sets (frontier 5 ether, byzantium 3, berlin 2, london 2 with base fee) with uncles {none, one at depth 1 in block 3, one at depth 2 in block 4, two at depths 2+1 in block 4, two at depth 1 in block 3} x " +
+			"uncle coinbases {never funded, funded EOA, the block's coinbase, the transaction sender} (6 pairs for two uncles, incl. the same never-funded miner twice) x 2 gas prices (0 leaves the coinbase unfunded until the reward), plus program transactions next to uncles; " +
+			"rewards computed by the model from the yellow-paper formula R + R/32 per uncle, (8 + U - B) R / 8 per uncle miner; " +
+			"oracle: reference model of balances (fork rules for self-destruction as booleans, gas used taken from the receipts) == every account balance read from the state trie after every block of the chain (incl. the trailing empty block), total ether equation, per-transaction sender and coinbase deltas, receipt status")
 		r.Bound("units", len(units))
 		r.Bound("max_units", maxLen)
 		r.Bound("programs", len(seqs))
@@ -873,7 +878,7 @@ func TestVerif_C32(t *testing.T) {
 		}
 		gridSeqs := [][]int{{}, {idx["call_eoa"]}, {idx["call_coinbase"]}, {idx["call_sender"]}, {idx["create_destruct_self"]}, {idx["call_destruct_self"]},
 			{idx["selfdestruct_to_self"]}, {idx["sstore_clear_refund"]}, {idx["revert"]}, {idx["out_of_gas"]}}
-		for fi, f := range forks {
+		for fi, f := range forks[:7] {
 			for _, seq := range seqs {
 				add(fi, seq, c32Case{GenesisFee: 8, Tx: dyn(7, 1, 1_000_000_000), Insert: len(seq) == 1})
 				if len(seq) <= 1 || r.Thorough() {
@@ -913,6 +918,15 @@ func TestVerif_C32(t *testing.T) {
 					add(fi, nil, c32Case{GenesisFee: 8, Tx: c32TxSpec{Kind: "create", Value: v, Tip: 1, FeeCap: 1_000_000_000, Init: init}, Insert: true})
 				}
 			}
+			// credits to a zero balance: the sender owns exactly the maximal cost, so the gas refund (and ether the
+			// program sends back) is credited while its balance is zero; price 7 == base fee also leaves the coinbase at zero
+			for _, seq := range seqs {
+				if len(seq) <= 1 {
+					for _, p := range []uint64{7, 9} {
+						add(fi, seq, c32Case{GenesisFee: 8, Tx: c32TxSpec{Kind: "legacy", Value: 7, FeeCap: p}, ExactSender: true, Insert: p == 9 && len(seq) == 0})
+					}
+				}
+			}
 			if f.shanghai {
 				for _, w := range [][]uint64{{1}, {1, 3}, {0, 2, 5}} {
 					for _, seq := range gridSeqs[:5] {
@@ -921,7 +935,42 @@ func TestVerif_C32(t *testing.T) {
 				}
 			}
 		}
-		r.Bound("blocks", len(jobs))
+		// proof-of-work chains of 5 blocks with uncles (consensus rewards): block 3 / block 4 carry 0, 1 or 2 uncles at depth 1..2
+		singles := [][]string{{"never_funded"}, {"funded_eoa"}, {"block_coinbase"}, {"tx_sender"}}
+		pairs := [][]string{{"never_funded", "never_funded"}, {"never_funded", "never_funded2"}, {"never_funded", "funded_eoa"}, {"funded_eoa", "block_coinbase"},
+			{"block_coinbase", "tx_sender"}, {"tx_sender", "never_funded"}}
+		type pat struct {
+			name string
+			cbs  [][]string
+		}
+		pats := []pat{{"none", [][]string{nil}}, {"b3d1", singles}, {"b4d2", singles}, {"b4d2d1", pairs}, {"b3d1d1", pairs}}
+		powForks := 0
+		for fi, f := range forks {
+			if !f.pow {
+				continue
+			}
+			powForks++
+			type fee struct{ g, p uint64 }
+			fees := []fee{{0, 0}, {0, 3}}
+			if f.london {
+				fees = []fee{{0, 0}, {8, 9}}
+			}
+			for _, pt := range pats {
+				for _, cbs := range pt.cbs {
+					for _, fe := range fees {
+						add(fi, nil, c32Case{GenesisFee: fe.g, Insert: true, Pow: &c32PowSpec{Uncles: pt.name, Coinbases: cbs, Price: fe.p}})
+					}
+				}
+			}
+			if f.programs {
+				for _, u := range []string{"call_coinbase", "call_destruct_to_absent", "selfdestruct_to_self"} {
+					add(fi, []int{idx[u]}, c32Case{GenesisFee: fees[1].g, Insert: true, Pow: &c32PowSpec{Uncles: "b3d1", Coinbases: singles[0], Price: fees[1].p, ProgramBlock: true}})
+					add(fi, []int{idx[u]}, c32Case{GenesisFee: fees[1].g, Insert: true, Pow: &c32PowSpec{Uncles: "b4d2d1", Coinbases: pairs[2], Price: fees[1].p, ProgramBlock: true}})
+				}
+			}
+		}
+		r.Bound("pow_rule_sets", powForks)
+		r.Bound("chains", len(jobs))
 		r.Parallel(len(jobs), func(ji int) {
 			jb := jobs[ji]
 			oc := ""
@@ -933,7 +982,8 @@ func TestVerif_C32(t *testing.T) {
 			if oc != "" {
 				r.Outcome(forks[jb.fi].name + "/" + oc)
 			}
-			r.DistinctHash(mc.Hash64(fmt.Sprintf("%+v", jb.c)))
+			kb, _ := json.Marshal(jb.c)
+			r.DistinctHash(mc.Hash64(string(kb)))
 			if ji%499 == 0 {
 				r.Sample(jb.c)
 			}
